@@ -144,6 +144,22 @@ impl SubCheck for ReplaceDate {
         if let Some(r) = gd {
             crate::props::c01::check_fields(&r, exp.unwrap())?;
         }
+        // the deprecated zoned date replaces the same field of the same date
+        #[allow(deprecated)]
+        {
+            use chrono::TimeZone;
+            let zd = chrono::Utc.from_utc_date(&date);
+            let gz = match f {
+                0 => call("Date::with_year", || zd.with_year(v as i32))?,
+                1 => call("Date::with_month", || zd.with_month(v as u32))?,
+                2 => call("Date::with_month0", || zd.with_month0(v as u32))?,
+                3 => call("Date::with_day", || zd.with_day(v as u32))?,
+                4 => call("Date::with_day0", || zd.with_day0(v as u32))?,
+                5 => call("Date::with_ordinal", || zd.with_ordinal(v as u32))?,
+                _ => call("Date::with_ordinal0", || zd.with_ordinal0(v as u32))?,
+            };
+            ensure_eq!(gz.map(|x| conv::unix_day_of(x.naive_utc())), exp, "Date<Utc> field {f} := {v} on {y}-{m}-{d} (ordinal {o})");
+        }
         Ok(())
     }
 }
@@ -238,6 +254,14 @@ impl SubCheck for Week {
                 ensure_eq!((*r.start(), *r.end()), (f, l), "checked_days");
                 ensure!(r.contains(&d), "week does not contain its date");
                 ensure_eq!(call("days", || w.days())?, r, "days");
+                // every date of the week names the same week value: equal, and hashing alike
+                use std::hash::{Hash, Hasher};
+                let h = |x: &chrono::NaiveWeek| { let mut s = std::collections::hash_map::DefaultHasher::new(); x.hash(&mut s); s.finish() };
+                for other in [f, l, f + chrono::Days::new((z.rem_euclid(7) as u64 + s as u64) % 7)] {
+                    let w2 = other.week(WD[s as usize]);
+                    ensure!(w2 == w, "week of {other} (start {s}) differs from the week of {d}");
+                    ensure_eq!(h(&w2), h(&w), "equal weeks hash differently: week of {other} vs week of {d} (start {s})");
+                }
             }
             _ => {
                 ensure!(gd.is_none(), "checked_days = Some although an end is unrepresentable");
@@ -285,6 +309,10 @@ impl SubCheck for Nth {
         obs.label_if(exp.is_some(), "exists");
         let got = call("from_weekday_of_month_opt", || NaiveDate::from_weekday_of_month_opt(y, m, WD[wd as usize], n))?;
         ensure_eq!(got.map(conv::unix_day_of), exp, "from_weekday_of_month_opt({y}, {m}, {wd}, {n})");
+        // the deprecated panicking form: same date, panic exactly when there is none
+        #[allow(deprecated)]
+        let dep = crate::guard::guard(|| NaiveDate::from_weekday_of_month(y, m, WD[wd as usize], n)).ok();
+        ensure_eq!(dep.map(conv::unix_day_of), exp, "deprecated from_weekday_of_month({y}, {m}, {wd}, {n})");
         Ok(())
     }
 }
